@@ -415,7 +415,7 @@ func runC18(c *hc.Ctx) error {
 	c.CorrInit("Texel.Corr.C18", "theories/Corr/C18.v", 100)
 	c.Sum.Rule = "valid polygons biased to collapse (combs, slivers, 2-opt thin shapes, holes near the shell) on synthetic dyadic grids, single tile matrix per case so that the class condition is per level; kept only if the implementation's own routed chains visit every pixel centre at most twice; distinct by (grid, polygon, id, flags); non-trivial = some centre is visited exactly twice"
 	c.Sum.Oracle = "every edge of every returned ring (>= 3 vertices, or kept lines) is a routed edge or a straight run of consecutive routed edges; every hole lies inside or on its shell; signed area of the returned rings (>= 3 vertices) equals the signed area of the routed chains"
-	c.Sum.Partial = "edge conservation is proved for splitRing/dedupe and for kmpDeduplicate on repeat-free chains; the nesting clause (hole inside shell) is decided by search only"
+	c.Sum.Partial = "edges and signed area are proved end to end on the class (snapLevel/snapPolygon, with the whole-ring role swap and holes turned shells accounted for explicitly); that neither role change happens for a valid polygon, and the nesting clause (hole inside shell), are decided by search only"
 	grids := syntheticGrids()
 	n := c.N(1500, 100000)
 	if c.Search {
